@@ -667,6 +667,9 @@ func genEqStack(r *rand.Rand, depth int, form string) V {
 	if r.Intn(6) == 0 {
 		c.Opt |= fFold
 	}
+	if c.Kind != 4 && r.Intn(5) == 0 {
+		c.Sym = []string{"+", "&", "plus"}[r.Intn(3)] // presentation only: must not enter the kind comparison
+	}
 	if r.Intn(40) == 0 {
 		c.Eqf = 1 + r.Intn(2)
 	}
